@@ -294,7 +294,8 @@ func (s *server) OnWebTransportSession(ctx *types.HttpContext, wt *webtransport.
 		Sid string `json:"sid"`
 	}
 
-	if json.NewDecoder(value.Data).Decode(&wth) != nil {
+	// a JSON `null` decodes without error and leaves the pointer nil
+	if json.NewDecoder(value.Data).Decode(&wth) != nil || wth == nil {
 		server_log.Debug("invalid WebTransport handshake")
 		abortUpgrade(ctx, BAD_REQUEST, nil)
 		return
